@@ -18,6 +18,12 @@ ASSUMPTIONS = ["classical gates = X, CX, CCX, MCX; barriers are ignored; the I g
                "a section's half-open index range may include barriers adjacent to the run but no other gate"]
 
 
+def setup():
+    from ..monitors import reach
+
+    reach.install_paths(['qlasskit.decompiler.decompiler:Decompiler.decompile'])
+
+
 def cases(tier, seed):
     rng = random.Random(11000 + seed)
     for c in GC.structured(random.Random(5)):
@@ -54,6 +60,15 @@ def runs_of(gates):
 
 
 def check(case):
+    from ..monitors import reach
+
+    r = _check_inner(case)
+    if isinstance(r, dict):
+        r.setdefault("counters", {}).update(reach.take())
+    return r
+
+
+def _check_inner(case):
     from qlasskit.decompiler import Decompiler
 
     if case["kind"] == "compiled":
